@@ -158,6 +158,19 @@ class C14(Prop):
         'emphasis inertness is decided by the independent model vf/oracle/emphasis.py',
     )
 
+    def selfcheck(self):
+        """The inertness predicate must reject live constructs and accept plain tricky prose."""
+        live = [['# h'], ['a', '==='], ['- x'], ['1. x'], ['> q'], ['*a*'], ['a `b` c'], ['[a](b)'], ['a &amp; b'], ['a \\* b'],
+                ['<http://x.y>'], ['~~a~~ ~~'], ['***'], ['a', '|-|'], ['```'], ['a\\']]
+        for lines in live:
+            if not_inert_reason(lines) is None:
+                raise RuntimeError('inertness predicate accepts %r' % (lines,))
+        inert = [['snake_case 2*3 AT&T #tag'], ['a * b - c + d', '= e | f ~ g'], ['1.5 (a) 2)x', 'it\'s "q" 100%']]
+        for lines in inert:
+            if not_inert_reason(lines) is not None:
+                raise RuntimeError('inertness predicate rejects %r: %s' % (lines, not_inert_reason(lines)))
+        return 'predicate self-test: %d live rejected, %d inert accepted' % (len(live), len(inert))
+
     def parts(self):
         return [Prose()]
 
